@@ -17,6 +17,7 @@ import (
 	"runtime/debug"
 	"sort"
 	"strconv"
+	"strings"
 
 	"github.com/apmckinlay/gsuneido/util/bloom"
 	"github.com/apmckinlay/gsuneido/util/cache"
@@ -347,8 +348,15 @@ func sortlistScenario(n int, nkeys int, mode string) {
 	desc := func(x, y uint64) bool { return slKey(x) > slKey(y) }
 	in := make([]int, n)
 	items := make([]uint64, n)
+	skew := strings.HasSuffix(mode, "/skew")
+	mode = strings.TrimSuffix(mode, "/skew")
 	for i := range items {
-		items[i] = uint64(1+rnd.Intn(nkeys))<<seqBits | uint64(i+1)
+		k := 1 + rnd.Intn(nkeys)
+		if skew && (i/4096)%2 == 0 {
+			// every other block only holds keys from a low band: the sorted runs overlap partially
+			k = nkeys/10 + 1 + rnd.Intn(max(1, nkeys/10))
+		}
+		items[i] = uint64(k)<<seqBits | uint64(i+1)
 		in[i] = int(items[i])
 	}
 	if n > 3 && rnd.Intn(3) == 0 { // already sorted input (merge short cut: "nothing to do")
@@ -787,6 +795,7 @@ func main() {
 		sortlistScenario(n, []int{3, 50, 2000}[rnd.Intn(3)], modes[i%len(modes)])
 	}
 	sortlistScenario(4097+rnd.Intn(5000), 50, "sorted")
+	sortlistScenario(8192+rnd.Intn(200), 100, "sorted/skew")
 	for i := 0; i < scale; i++ {
 		bloomScenario(20 + rnd.Intn(150))
 		roaringScenario([]int{4200, 5000, 100}[(i+int(vh.Seed()))%3])
